@@ -68,11 +68,11 @@ macro_rules! invert_cmd_case {
         }
     };
 }
-//@ob fn="<Invert<E> as Updatable<E>>::update" at=src/devices.rs:78 prop=C13,C03 also=rel_check clause="no command at either terminal: term1 := -; term2 := - (nothing written; reads yield none)"
+//@ob fn="<Invert<E> as Updatable<E>>::update" at=src/devices.rs:78 prop=C13,C03 also_thorough=rel_check clause="no command at either terminal: term1 := -; term2 := - (nothing written; reads yield none)"
 invert_cmd_case!(c13_invert_none, false, false);
-//@ob fn="<Invert<E> as Updatable<E>>::update" at=src/devices.rs:78 prop=C13,C03 also=rel_check clause="only side 1 has a command: term1 := c1 @t1 (same kind); term2 := -(c1) @t1 (same kind); reads at terminals 1, 2 yield exactly these"
+//@ob fn="<Invert<E> as Updatable<E>>::update" at=src/devices.rs:78 prop=C13,C03 also_thorough=rel_check clause="only side 1 has a command: term1 := c1 @t1 (same kind); term2 := -(c1) @t1 (same kind); reads at terminals 1, 2 yield exactly these"
 invert_cmd_case!(c13_invert_only1, true, false);
-//@ob fn="<Invert<E> as Updatable<E>>::update" at=src/devices.rs:78 prop=C13,C03 also=rel_check clause="only side 2 has a command: term1 := -(c2) @t2; term2 := -(-(c2)) @t2 (kind of c2 at both); reads yield exactly these"
+//@ob fn="<Invert<E> as Updatable<E>>::update" at=src/devices.rs:78 prop=C13,C03 also_thorough=rel_check clause="only side 2 has a command: term1 := -(c2) @t2; term2 := -(-(c2)) @t2 (kind of c2 at both); reads yield exactly these"
 invert_cmd_case!(c13_invert_only2, false, true);
 //@ob fn="<Invert<E> as Updatable<E>>::update" at=src/devices.rs:78 prop=C13,C03 also=rel_check clause="both present, all timestamp orders: t2 > t1: term1 := -(c2) @t2; term2 := -(-(c2)) @t2; else (t1 >= t2, side 1 wins ties): term1 := c1 @t1; term2 := -(c1) @t1; issuer's kind and timestamp at both; reads yield exactly these"
 invert_cmd_case!(c13_invert_both, true, true);
@@ -153,13 +153,13 @@ macro_rules! gear_cmd_case {
         }
     };
 }
-//@ob fn="<GearTrain<E> as Updatable<E>>::update" at=src/devices.rs:196 prop=C13,C03 also=rel_check clause="no command at either terminal, any ratio: nothing written; reads yield none"
+//@ob fn="<GearTrain<E> as Updatable<E>>::update" at=src/devices.rs:196 prop=C13,C03 also_thorough=rel_check clause="no command at either terminal, any ratio: nothing written; reads yield none"
 gear_cmd_case!(c13_gear_none, false, false);
 //@ob fn="<GearTrain<E> as Updatable<E>>::update" at=src/devices.rs:196 prop=C13,C03 also=rel_check clause="only side 1 has a command, any ratio r: term1 := - (c1 @t1 stays); term2 := c1 * r @t1 (same kind); reads yield exactly these"
 gear_cmd_case!(c13_gear_only1, true, false);
-//@ob fn="<GearTrain<E> as Updatable<E>>::update" at=src/devices.rs:196 prop=C13,C03 also=rel_check clause="only side 2 has a command, any ratio r: term1 := c2 / r @t2 (same kind); term2 := - (c2 @t2 stays); reads yield exactly these"
+//@ob fn="<GearTrain<E> as Updatable<E>>::update" at=src/devices.rs:196 prop=C13,C03 also_thorough=rel_check clause="only side 2 has a command, any ratio r: term1 := c2 / r @t2 (same kind); term2 := - (c2 @t2 stays); reads yield exactly these"
 gear_cmd_case!(c13_gear_only2, false, true);
-//@ob fn="<GearTrain<E> as Updatable<E>>::update" at=src/devices.rs:196 prop=C13,C03 also=rel_check clause="both present, all timestamp orders, any ratio r: t1 >= t2 (side 1 wins ties): term2 := c1 * r @t1, term1 := - (keeps c1 @t1); t2 > t1: term1 := c2 / r @t2, term2 := - (keeps c2 @t2); issuer's kind and timestamp at both terminals; reads yield exactly these"
+//@ob fn="<GearTrain<E> as Updatable<E>>::update" at=src/devices.rs:196 prop=C13,C03 also_thorough=rel_check clause="both present, all timestamp orders, any ratio r: t1 >= t2 (side 1 wins ties): term2 := c1 * r @t1, term1 := - (keeps c1 @t1); t2 > t1: term1 := c2 / r @t2, term2 := - (keeps c2 @t2); issuer's kind and timestamp at both terminals; reads yield exactly these"
 gear_cmd_case!(c13_gear_both, true, true);
 
 //@ob fn="<GearTrain<E> as Updatable<E>>::update" at=src/devices.rs:196 prop=C13,C09 clause="each device terminal connected to an external terminal, all 16 have/lack subsets of the 4 command slots: the gear-train rule is applied to the terminal READS (newer of own and partner, own wins ties); partner slots unchanged"
